@@ -1635,6 +1635,7 @@ class Stream(AbstractStream):
             self._imol.data = other._imol.data
         if phase and self._imol.data.ndim == 1:
             self._imol._phase = other._imol._phase
+        self.reset_cache()
             
     def unlink(self):
         """
